@@ -56,3 +56,71 @@ Theorem C28_nothing_remains :
      r_nbrs st = [] /\ forall rd v6, table st rd v6 = []).
 Proof. exact nothing_remains. Qed.
 Print Assumptions C28_nothing_remains.
+
+From BioVerif Require Import Proofs.BMPObserverProofs.
+
+(* Table observers are informed: for every history of arriving bytes (any bytes), observer
+   registrations with distinct ids and connection losses that the router survives, every observer
+   registered on a VRF table has been told - adds minus removes - exactly the table's content. *)
+Theorem C28_observers_follow :
+  forall (open_decode : bytes -> option open_info) (upd_apply : bool -> bool -> bool -> bytes -> list uevent)
+         (c : cfg) (acts : list action) (st : rstate),
+  NoDup (obs_ids acts) ->
+  run open_decode upd_apply c init acts = Some st ->
+  forall v w o x, In v (r_vrfs st) -> In o (obs w v) -> cnt x (view o (r_log st)) = cnt x (tab w v).
+Proof. exact observers_follow. Qed.
+Print Assumptions C28_observers_follow.
+
+(* ... and when the connection is lost (Router.cleanup, also run after a termination message) every
+   registered observer is told Dispose and the VRFs are dropped. *)
+Theorem C28_observers_disposed :
+  forall (st : rstate) (o : N) (v : vrf) (w : bool), In v (r_vrfs st) -> In o (obs w v) ->
+  disposed o (r_log (cleanup st)) = true /\ r_vrfs (cleanup st) = [].
+Proof. exact observers_disposed. Qed.
+Print Assumptions C28_observers_disposed.
+
+(* ---- Non-vacuity: a concrete well-formed history on an add-path session. The BGP layer is a toy:
+   every OPEN announces add-path send/receive for IPv4 and the AS in its bytes 20-21; a carried BGP
+   message [1; p; i] announces p/24 with path id i, [2; p; i] withdraws it. *)
+Definition ex_open (b : bytes) : option open_info :=
+  Some (mk_open (be (firstn 2 (skipn 20 b))) 1 [] [(1, 1, 3)]).
+Definition ex_apply (_ _ _ : bool) (b : bytes) : list uevent :=
+  match b with
+  | [1; p; i] => [UAnn false (p, 24) i]
+  | [2; p; i] => [UWdr false (p, 24) i]
+  | _ => []
+  end.
+Definition ex_cfg : cfg := mk_cfg [] false false.
+Definition ex_hdr (l t : N) : bytes := [3; 0; 0; 0; l; t].
+(* peer 10.0.0.2, AS 65010, global VRF *)
+Definition ex_pph : bytes := [0; 0] ++ repeat 0 8 ++ repeat 0 12 ++ [10; 0; 0; 2] ++ [0; 0; 253; 242] ++ repeat 0 12.
+Definition ex_openmsg (hi lo : N) : bytes := repeat 255 16 ++ [0; 29; 1; 4; hi; lo; 0; 180; 1; 1; 1; 1; 0].
+Definition ex_up : bytes :=
+  ex_hdr 126 3 ++ ex_pph ++ repeat 0 16 ++ [0; 179; 156; 64] ++ ex_openmsg 253 233 ++ ex_openmsg 253 242.
+Definition ex_rm (k p i : N) : bytes := ex_hdr 51 0 ++ ex_pph ++ [k; p; i].
+Definition ex_down : bytes := ex_hdr 49 2 ++ ex_pph ++ [4].
+Definition ex_peer : src := (false, 167772162).
+
+Definition ex_hist : list action :=
+  [AFrame ex_up; AObserve 7 0 false; AFrame (ex_rm 1 1 1); AFrame (ex_rm 1 1 2); AFrame (ex_rm 2 1 1)].
+
+(* two paths of 1.0.0.0/24 announced, path 1 withdrawn: path 2 is there, the observer saw it all *)
+Example C28_example_addpath :
+  wf ex_open ex_apply ex_cfg ex_hist = true /\
+  exists st, run ex_open ex_apply ex_cfg init ex_hist = Some st /\
+    table st 0 false = [(ex_peer, (1, 24), 2)] /\ view 7 (r_log st) = [(ex_peer, (1, 24), 2)] /\
+    live (trace ex_open ex_apply ex_cfg ex_hist) (0, 167772162) false ((1, 24), 2) = true /\
+    live (trace ex_open ex_apply ex_cfg ex_hist) (0, 167772162) false ((1, 24), 1) = false.
+Proof. split; [vm_compute; reflexivity|]. eexists. vm_compute. repeat split; reflexivity. Qed.
+
+(* after the peer down nothing of the peer remains and the observer was told so; after the loss of
+   the connection the observer has been disposed and the VRF is gone *)
+Example C28_example_peer_down :
+  exists st, run ex_open ex_apply ex_cfg init (ex_hist ++ [AFrame ex_down]) = Some st /\
+    wf ex_open ex_apply ex_cfg (ex_hist ++ [AFrame ex_down]) = true /\
+    table st 0 false = [] /\ view 7 (r_log st) = [] /\ r_nbrs st = [] /\ disposed 7 (r_log st) = false.
+Proof. eexists. vm_compute. repeat split; reflexivity. Qed.
+Example C28_example_conn_loss :
+  exists st, run ex_open ex_apply ex_cfg init (ex_hist ++ [AConnLoss]) = Some st /\
+    r_vrfs st = [] /\ r_nbrs st = [] /\ disposed 7 (r_log st) = true.
+Proof. eexists. vm_compute. repeat split; reflexivity. Qed.
